@@ -22,6 +22,13 @@ func (c *Ctx) CheckGrammar(text string, feats map[string]string) ref.ParseResult
 		c.Report(Violation{Rule: "C04/panic", Expr: text, Got: ShowOut(lc), Features: feats})
 		return pr
 	}
+	// one-shot Search must reach the same verdict on the text as Compile
+	if ls := c.LibSearch(text, c04Probe); ls.Panic == nil {
+		cs, ss := lc.Err != nil && lc.Cats == ref.CatSyntax, ls.Err != nil && ls.Cats == ref.CatSyntax
+		if cs != ss {
+			c.Report(Violation{Rule: "C04/search-compile-disagree", Expr: text, Got: "Search: " + ShowOut(ls), Want: "Compile: " + ShowOut(lc), Features: feats})
+		}
+	}
 	switch pr.Status {
 	case ref.ParseGap:
 		c.Count("abstained", 1)
@@ -120,6 +127,10 @@ func c04BaseN(c *Ctx) int {
 
 var c04WS = []string{" ", "\t", "\n", "\r", "  "}
 
+// runes that are white space for Unicode but not for the grammar: inserted at
+// a token gap they must make the text a non-member
+var c04NotWS = []string{"\v", "\f", "\u0085", "\u00a0", "\u1680", "\u2003", "\u2028", "\u2029", "\u202f", "\u3000", "\ufeff", "\u200b", "\x00", "\x1f", "\x7f"}
+
 // whitespace: every token gap (and both ends) of a base expression filled
 // with each whitespace string, one gap at a time.
 func c04Whitespace(c *Ctx, idx int) {
@@ -139,7 +150,21 @@ func c04Whitespace(c *Ctx, idx int) {
 			}
 		}
 	}
-	c.Sample(map[string]any{"base": e, "gaps": len(gaps), "whitespace_strings": len(c04WS)})
+	// not-whitespace runes at both ends and at two interior gaps
+	ends := []int{0, len(e)}
+	if len(gaps) > 2 {
+		ends = append(ends, gaps[1], gaps[len(gaps)/2])
+	}
+	for _, g := range ends {
+		for _, w := range c04NotWS {
+			t := e[:g] + w + e[g:]
+			pr := c.CheckGrammar(t, map[string]string{"family": "not-whitespace"})
+			if pr.Status != ref.ParseGap {
+				c.Nontrivial(t)
+			}
+		}
+	}
+	c.Sample(map[string]any{"base": e, "gaps": len(gaps), "whitespace_strings": len(c04WS), "not_whitespace_runes": len(c04NotWS)})
 }
 
 var c04EditTokens = []string{"a", "\"q\"", "'r'", "`1`", "`\"s\"`", "0", "-1", "1.5", ".", "*", ".*", "[", "]", "[*]", "[]", "[?", "{", "}", "(", ")", ",", ":", "|", "||", "&&", "&", "!", "==", "!=", "<", ">=", "+", "-", "/", "//", "%", "×", "@", "$", "$v", "let", "in", "=", "abs", "'"}
